@@ -39,9 +39,16 @@ Inductive expr :=
 | ETrunc (t : ity) (a : expr)              (* a as <narrower or equal> *)
 | EWiden (a : expr)                        (* u64::from(a), a as <wider>: unsigned, value unchanged *)
 | ETup (x : string) (k : nat)              (* k-th component of the tuple bound by  let (a, b) = f(..) *)
+| ELen (a : string)                        (* a.len() of an array / slice *)
+| ENot (t : ity) (a : expr)                (* !a *)
+| EIdxE (a : string) (i : expr)            (* a[i], i a computed usize *)
+| EFromLe (a : string) (n : nat)           (* uN::from_le_bytes([a[0], a[1], .., a[n-1]]) *)
 | EUnsupported (s : string).
 
-Inductive place := PVar (x : string) | PIdx (a : string) (i : idx).
+Inductive place := PVar (x : string) | PIdx (a : string) (i : idx) | PIdxE (a : string) (i : expr).
+Inductive cond :=
+| CNe (a b : expr) | CEq (a b : expr) | CGt (a b : expr) | CLt (a b : expr)
+| CLenGt (a b : string).                   (* a.len() > b.len() *)
 Inductive arg := AVal (e : expr) | AArr (a : string) | AK (i : idx).
 
 Inductive stmt :=
@@ -52,9 +59,20 @@ Inductive stmt :=
 | SFor (i : string) (lo hi : nat) (body : list stmt)
 | SCall (dst : option string) (f : string) (args : list arg)
 | SIfBufNonEmpty (body : list stmt)                     (* if !self.buffer.is_empty() { body } *)
+| SIf (c : cond) (th el : list stmt)
+| SDebugAssertFalse                                     (* debug_assert!(false, ..) *)
+| SLetRepeat (x : string) (v : expr) (n : nat)          (* let x = [v; n] *)
+| SLetSlice (x : string) (a : string) (lo hi : option expr)        (* let x = &a[lo..hi] *)
+| SCopyRange (dst : string) (dlo dhi : option expr) (src : string) (slo shi : option expr)
+                                                        (* dst[dlo..dhi].clone_from_slice / copy_from_slice(&src[slo..shi]) *)
+| SZipCopy (dst : string) (dlo : option expr) (src : string) (slo : option expr)
+                                                        (* for (p, b) in dst[dlo..].iter_mut().zip(&src[slo..]) { *p = *b } *)
+| SForChunks (x k : string) (d : string) (n cnt : nat) (body : list stmt)
+                                                        (* for (x, dest) in d.chunks_exact(n).zip(<array of cnt>.iter_mut()) { body }:
+                                                           x is bound to the k-th chunk, the index variable k stands for dest *)
 | SUnsupported (s : string).
 
-Inductive ret := RNone | RVal (e : expr) | RArr (es : list expr) | RTuple (es : list expr).
+Inductive ret := RNone | RVal (e : expr) | RArr (es : list expr) | RTuple (es : list expr) | RVarArr (x : string).
 Inductive pkind := KVal | KArr | KIdx.
 Record fndef := { f_params : list (string * pkind); f_body : list stmt; f_ret : ret }.
 
@@ -127,6 +145,19 @@ Fixpoint eval (p : profile) (s : state) (e : expr) : res N :=
   | ETrunc t a => do x <- eval p s a ;; Ok (N.land x (mask t))
   | EWiden a => eval p s a
   | ETup x k => match get s x with Some (VT l) => match nth_opt l k with Some v => Ok v | None => Fault end | _ => Fault end
+  | ELen a => match get s a with Some (VA l) => Ok (N.of_nat (List.length l)) | _ => Fault end
+  | ENot t a => do x <- eval p s a ;; Ok (N.lxor (N.land x (mask t)) (mask t))
+  | EIdxE a i =>
+      do k <- eval p s i ;;
+      match get s a with
+      | Some (VA l) => match nth_opt l (N.to_nat k) with Some x => Ok x | None => Panic end
+      | _ => Fault
+      end
+  | EFromLe a n =>
+      match get s a with
+      | Some (VA l) => if (n <=? List.length l)%nat then Ok (le_bytes (firstn n l)) else Panic     (* a[k] out of bounds *)
+      | _ => Fault
+      end
   | EUnsupported _ => Fault
   end.
 
@@ -145,7 +176,35 @@ Definition assign (p : profile) (s : state) (pl : place) (x : N) : res state :=
       | Some (VA l) => if (k <? List.length l)%nat then Ok (put s a (VA (set_nth l k x))) else Panic
       | _ => Fault
       end
+  | PIdxE a i =>
+      do kn <- eval p s i ;;
+      match get s a with
+      | Some (VA l) => if (N.to_nat kn <? List.length l)%nat then Ok (put s a (VA (set_nth l (N.to_nat kn) x))) else Panic
+      | _ => Fault
+      end
   end.
+
+Definition eval_cond (p : profile) (s : state) (c : cond) : res bool :=
+  match c with
+  | CNe a b => do x <- eval p s a ;; do y <- eval p s b ;; Ok (negb (x =? y))
+  | CEq a b => do x <- eval p s a ;; do y <- eval p s b ;; Ok (x =? y)
+  | CGt a b => do x <- eval p s a ;; do y <- eval p s b ;; Ok (y <? x)
+  | CLt a b => do x <- eval p s a ;; do y <- eval p s b ;; Ok (x <? y)
+  | CLenGt a b => match get s a, get s b with
+                  | Some (VA la), Some (VA lb) => Ok (List.length lb <? List.length la)%nat
+                  | _, _ => Fault
+                  end
+  end.
+
+(* bounds of a range a[lo..hi] over a sequence of length len: Rust panics unless lo <= hi <= len *)
+Definition eval_bound (p : profile) (s : state) (o : option expr) (dflt : nat) : res nat :=
+  match o with None => Ok dflt | Some e => do x <- eval p s e ;; Ok (N.to_nat x) end.
+Definition range_of (p : profile) (s : state) (lo hi : option expr) (len : nat) : res (nat * nat) :=
+  do l <- eval_bound p s lo 0%nat ;;
+  do h <- eval_bound p s hi len ;;
+  if (l <=? h)%nat && (h <=? len)%nat then Ok (l, h) else Panic.
+Fixpoint write_at (l : list N) (off : nat) (src : list N) : list N :=
+  match src with [] => l | x :: src' => write_at (set_nth l off x) (S off) src' end.
 
 Definition eval_arg (p : profile) (s : state) (a : arg) : res val :=
   match a with
@@ -219,6 +278,51 @@ Section Exec.
                match b with [] => Ok s | st' :: b' => do s1 <- exec st' s ;; block b' s1 end) body s
         | _ => Fault
         end
+    | SIf c th el =>
+        do bq <- eval_cond p s c ;;
+        (fix block (b : list stmt) (s : state) : res state :=
+           match b with [] => Ok s | st' :: b' => do s1 <- exec st' s ;; block b' s1 end) (if bq then th else el) s
+    | SDebugAssertFalse => if dbg p then Panic else Ok s
+    | SLetRepeat x v n => do y <- eval p s v ;; Ok (put s x (VA (repeat y n)))
+    | SLetSlice x a lo hi =>
+        match get s a with
+        | Some (VA l) => do r <- range_of p s lo hi (List.length l) ;; Ok (put s x (VA (firstn (snd r - fst r) (skipn (fst r) l))))
+        | _ => Fault
+        end
+    | SCopyRange dst dlo dhi src slo shi =>
+        match get s dst, get s src with
+        | Some (VA ld), Some (VA ls) =>
+            do rd <- range_of p s dlo dhi (List.length ld) ;;
+            do rs <- range_of p s slo shi (List.length ls) ;;
+            if Nat.eqb (snd rd - fst rd) (snd rs - fst rs)
+            then Ok (put s dst (VA (write_at ld (fst rd) (firstn (snd rs - fst rs) (skipn (fst rs) ls)))))
+            else Panic                                               (* source slice length does not match destination *)
+        | _, _ => Fault
+        end
+    | SZipCopy dst dlo src slo =>
+        match get s dst, get s src with
+        | Some (VA ld), Some (VA ls) =>
+            do rd <- range_of p s dlo None (List.length ld) ;;
+            do rs <- range_of p s slo None (List.length ls) ;;
+            Ok (put s dst (VA (write_at ld (fst rd) (firstn (Nat.min (snd rd - fst rd) (snd rs - fst rs)) (skipn (fst rs) ls)))))
+        | _, _ => Fault
+        end
+    | SForChunks x k d n cnt body =>
+        match get s d with
+        | Some (VA l) =>
+            (fix loop (ks : list nat) (s : state) : res state :=
+               match ks with
+               | [] => Ok s
+               | j :: ks' =>
+                   if (n * S j <=? List.length l)%nat then
+                     do s' <- (fix block (b : list stmt) (s : state) : res state :=
+                                 match b with [] => Ok s | st' :: b' => do s1 <- exec st' s ;; block b' s1 end)
+                              body (put (put s k (VK j)) x (VA (firstn n (skipn (n * j) l)))) ;;
+                     loop ks' s'
+                   else Ok s
+               end) (seq 0 cnt) s
+        | _ => Fault
+        end
     | SUnsupported _ => Fault
     end.
 
@@ -231,6 +335,7 @@ Section Exec.
     | RVal e => do x <- eval p s e ;; Ok (Some (VN x))
     | RArr es => do xs <- eval_list p s es ;; Ok (Some (VA xs))
     | RTuple es => do xs <- eval_list p s es ;; Ok (Some (VT xs))
+    | RVarArr x => match get s x with Some (VA l) => Ok (Some (VA l)) | _ => Fault end
     end.
 
   Definition run_fn (d : fndef) (g : env) (vs : list val) : res (env * list (option val) * option val) :=
